@@ -512,14 +512,26 @@ func consume(st *TState, firstFact KSet, newCur KSet) *TState {
 }
 
 func (tk *TKAI) flow(ci *ctxInfo, start *ssa.BasicBlock, init [2]*TState, region map[*ssa.BasicBlock]bool, cut func(from, to *ssa.BasicBlock) bool) *flowResult {
+	return tk.flowMulti(ci, map[*ssa.BasicBlock][2]*TState{start: init}, region, cut)
+}
+
+// flowMulti runs the dataflow from several start blocks, each with its own initial states.
+func (tk *TKAI) flowMulti(ci *ctxInfo, starts map[*ssa.BasicBlock][2]*TState, region map[*ssa.BasicBlock]bool, cut func(from, to *ssa.BasicBlock) bool) *flowResult {
 	w := tk.w
 	tk.nflows++
 	res := &flowResult{ci: ci, in: map[*ssa.BasicBlock][2]*TState{}}
-	res.in[start] = init
 	type edgeK struct{ from, to *ssa.BasicBlock }
 	edgeIn := map[edgeK][2]*TState{}
-	work := []*ssa.BasicBlock{start}
-	inWork := map[*ssa.BasicBlock]bool{start: true}
+	var work []*ssa.BasicBlock
+	inWork := map[*ssa.BasicBlock]bool{}
+	for _, b := range ci.fn.Blocks {
+		if init, ok := starts[b]; ok {
+			res.in[b] = init
+			work = append(work, b)
+			inWork[b] = true
+		}
+	}
+	isStart := func(b *ssa.BasicBlock) bool { _, ok := starts[b]; return ok }
 	keys := map[edgeK][2]string{}
 	iter := 0
 	for len(work) > 0 {
@@ -540,7 +552,7 @@ func (tk *TKAI) flow(ci *ctxInfo, start *ssa.BasicBlock, init [2]*TState, region
 		var phi *ssa.Phi
 		if x, ok := b.Instrs[len(b.Instrs)-1].(*ssa.If); ok {
 			iff = x
-			if p, ok := x.Cond.(*ssa.Phi); ok && p.Block() == b && b != start {
+			if p, ok := x.Cond.(*ssa.Phi); ok && p.Block() == b && !isStart(b) {
 				phi = p
 			}
 		}
@@ -1366,3 +1378,84 @@ func (tk *TKAI) paramFact(v ssa.Value) KSet {
 }
 
 func refLikeOrIface(v ssa.Value) bool { return refLike(v.Type()) }
+
+// flowAfter explores forward from just after an instruction with the given state: the rest of the
+// instruction's block is run first, then the dataflow continues from its successors.
+func (tk *TKAI) flowAfter(ci *ctxInfo, at ssa.Instruction, st *TState) (*flowResult, []*TState) {
+	b := at.Block()
+	states := []*TState{st.clone()}
+	after := false
+	dead := tk.w.deadAt(b)
+	for i, in := range b.Instrs {
+		if in == at {
+			after = true
+			continue
+		}
+		if !after {
+			continue
+		}
+		var next []*TState
+		for _, s := range states {
+			next = append(next, tk.step(ci, s, in, nil)...)
+		}
+		states = next
+		if dead >= 0 && i == dead {
+			states = nil
+			break
+		}
+	}
+	tail := states
+	starts := map[*ssa.BasicBlock][2]*TState{}
+	for si, succ := range b.Succs {
+		var init [2]*TState
+		for _, s := range states {
+			e := s
+			if iff, ok := b.Instrs[len(b.Instrs)-1].(*ssa.If); ok {
+				e = tk.refine(ci, s, iff.Cond, si == 0)
+			}
+			if e != nil {
+				init[part(e)] = joinStates(init[part(e)], e)
+			}
+		}
+		if init[0] != nil || init[1] != nil {
+			old := starts[succ]
+			for p := 0; p < 2; p++ {
+				if init[p] != nil {
+					old[p] = joinStates(old[p], init[p])
+				}
+			}
+			starts[succ] = old
+		}
+	}
+	if len(starts) == 0 {
+		return &flowResult{ci: ci, in: map[*ssa.BasicBlock][2]*TState{}}, tail
+	}
+	return tk.flowMulti(ci, starts, nil, nil), tail
+}
+
+// statesBefore re-simulates a block of a flow result up to an instruction and returns the states
+// (at most one per partition) just before it.
+func (tk *TKAI) statesBefore(res *flowResult, at ssa.Instruction) [2]*TState {
+	b := at.Block()
+	var out [2]*TState
+	for _, st0 := range res.in[b] {
+		if st0 == nil {
+			continue
+		}
+		states := []*TState{st0.clone()}
+		for _, in := range b.Instrs {
+			if in == at {
+				break
+			}
+			var next []*TState
+			for _, st := range states {
+				next = append(next, tk.step(res.ci, st, in, nil)...)
+			}
+			states = next
+		}
+		for _, st := range states {
+			out[part(st)] = joinStates(out[part(st)], st)
+		}
+	}
+	return out
+}
